@@ -103,7 +103,8 @@ check("C19", "exploration",
 check("C20", "exploration",
       "Pushes every token sequence up to length 4/5, random sequences, mutants and hostile texts "
       "through format() on the rel and debug-assertion builds under a panic monitor; formats every "
-      "accepted program three times per indent setting and requires pass 2 == pass 1; runs "
+      "accepted program three times per indent setting and requires pass 2 == pass 1; formats each corpus program under two "
+      "settings back to back and in the reverse order after another text (the rendering must not depend on that history); runs "
       "jrsonnet-fmt then jrsonnet-fmt --test on the corpus.",
       "Known findings cover unstable comment placement; says nothing about programs outside the "
       "generated corpus.",
